@@ -90,6 +90,8 @@ func (g *Generator) validateRequest(req *plugin.Request) error {
 }
 
 func (g *Generator) preparePlugins(be backend.Backend, pds []*plugin.Desc) error {
+	// Generate pairs g.plugins[i] with pds[i]: start from an empty list for every call
+	g.plugins = nil
 	for _, d := range pds {
 		// TODO(lushaojie): check d
 
